@@ -4,7 +4,7 @@ structure that start with a source) x live/dead source patterns x phases x energ
 selected mux input), Subsystem/System total/System average/24h-energy rows recomputed from the component rows; all orders agree."""
 import itertools, copy, json
 from ..common import Run, Res, seed, quiet_call, close
-from ..sysmodel import letters, PALETTES, PH2, build, observe, resolve, g, has, _r
+from ..sysmodel import letters, PALETTES, PH2, build, build_holes, observe, resolve, g, has, _r
 from .. import phys
 
 PROP = "C07"
@@ -230,7 +230,7 @@ def check_case(case):
     ref = None
     for o in orders:
         spec = to_spec(struct, o, case["pal"], case["volts"], case["phased"], case.get("pol", 1), case.get("prefix", False))
-        s = build(spec)
+        s = build(spec) if not case.get("holes") else build_holes(spec, analyse=True)   # holes: the same structure through an edit history
         res.stats["transitions"] += len(o) + 1
         try:
             df, _ = quiet_call(s.solve, energy=case["energy"])
@@ -291,6 +291,8 @@ def gen_cases(tier):
                 yield dict(struct={k: [v[0], list(v[1])] for k, v in st.items()}, pal=pal, volts=list(volts), phased=phased, energy=en)
             if len(st) <= 6:
                 yield dict(struct={k: [v[0], list(v[1])] for k, v in st.items()}, pal=pal, volts=list(volts), phased=False, energy=False, prefix=True)
+            if len(st) <= 6 and "M" in st:   # freed / re-used node indices (a component may have a lower index than its own source)
+                yield dict(struct={k: [v[0], list(v[1])] for k, v in st.items()}, pal=pal, volts=list(volts), phased=False, energy=False, holes=True)
             if len(st) <= 5:  # phase durations edited between two analyses
                 yield dict(struct={k: [v[0], list(v[1])] for k, v in st.items()}, pal=pal, volts=list(volts), phased=True, energy=True, rephase=True)
             if "M" in st and len(st) <= 6:  # negative rails through the mux
